@@ -469,13 +469,18 @@ class Decompiler(object):
         return ast.Tuple(decompiler.pop_items(size), ast.Load())
 
     def BUILD_STRING(decompiler, count):
-        items = list(reversed([decompiler.stack.pop() for _ in range(count)]))
-        for i, item in enumerate(items):
+        items = []
+        for item in reversed([decompiler.stack.pop() for _ in range(count)]):
             if isinstance(item, ast.Constant):
                 if not isinstance(item.value, str):
                     throw(NotImplementedError, item)
-            elif not isinstance(item, ast.FormattedValue):
-                items[i] = ast.FormattedValue(item, -1)
+                items.append(item)
+            elif isinstance(item, ast.JoinedStr) and len(item.values) == 1 and isinstance(item.values[0], ast.FormattedValue):
+                items.append(item.values[0])  # a replacement field produced by FORMAT_VALUE
+            elif isinstance(item, ast.FormattedValue):
+                items.append(item)
+            else:
+                items.append(ast.FormattedValue(item, -1))
         return ast.JoinedStr(items)
 
     def CALL_FUNCTION(decompiler, argc, star=None, star2=None):
@@ -639,22 +644,19 @@ class Decompiler(object):
         return ast.comprehension(target, iter, ifs, 0)
 
     def FORMAT_VALUE(decompiler, flags):
-        conversion = -1
         format_spec = None
-        if flags in (0, 1, 2, 3):
-            value = decompiler.stack.pop()
-            if flags == 0:
-                conversion = -1
-            elif flags == 1:
-                conversion = ord('s')  # str conversion
-            elif flags == 2:
-                conversion = ord('r')  # repr conversion
-            elif flags == 3:
-                conversion = ord('a')  # ascii conversion
-        elif flags == 4:
+        if flags & 4:
             format_spec = decompiler.stack.pop()
-            value = decompiler.stack.pop()
-        return ast.FormattedValue(value=value, conversion=conversion, format_spec=format_spec)
+        value = decompiler.stack.pop()
+        conversion = [-1, ord('s'), ord('r'), ord('a')][flags & 3]
+        return decompiler.formatted_value(value, conversion, format_spec)
+
+    def formatted_value(decompiler, value, conversion, format_spec=None):
+        # a replacement field is always part of an f-string node: a lone f'{x!r}' is JoinedStr([FormattedValue]),
+        # not a bare FormattedValue (which would be taken for the plain value x)
+        if isinstance(format_spec, ast.Constant):
+            format_spec = ast.JoinedStr([format_spec])
+        return ast.JoinedStr([ast.FormattedValue(value=value, conversion=conversion, format_spec=format_spec)])
 
     def FORMAT_SIMPLE(decompiler):
         # see CONVERT_VALUE
@@ -663,7 +665,7 @@ class Decompiler(object):
             value, conversion = args
         else:
             value, conversion = args, -1
-        return ast.FormattedValue(value=value, conversion=conversion)
+        return decompiler.formatted_value(value, conversion)
 
     def FORMAT_WITH_SPEC(decompiler):
         spec = decompiler.stack.pop()
@@ -673,7 +675,7 @@ class Decompiler(object):
             value, conversion = args
         else:
             value, conversion = args, -1
-        return ast.FormattedValue(value=value, conversion=conversion, format_spec=spec)
+        return decompiler.formatted_value(value, conversion, spec)
 
     def GEN_START(decompiler, kind):
         assert kind == 0  # only support sync
